@@ -284,17 +284,29 @@ impl Scheduler {
                 let to = &self.block_info[&to_block_id];
                 // for each pair (from -> to) inside the job graph, connect all the corresponding
                 // jobs of the execution graph
-                for &from_coord in from.replicas.values().flatten() {
-                    let to: Vec<_> = to.replicas.values().flatten().collect();
-                    for &to_coord in &to {
-                        if from.is_only_one_strategy || fragile {
-                            if to.len() == 1
-                                || (to_coord.host_id == from_coord.host_id
-                                    && to_coord.replica_id == from_coord.replica_id)
-                            {
-                                self.network.connect(from_coord, *to_coord, typ, fragile);
-                            }
-                        } else {
+                // sorted, so that every host derives the same links
+                let mut from_replicas: Vec<_> = from.replicas.values().flatten().copied().collect();
+                from_replicas.sort();
+                let mut to_replicas: Vec<_> = to.replicas.values().flatten().collect();
+                to_replicas.sort();
+                for (from_index, &from_coord) in from_replicas.iter().enumerate() {
+                    let to = &to_replicas;
+                    if from.is_only_one_strategy || fragile {
+                        // a forward link has exactly one consumer per producer replica: the
+                        // replica with the same index if it exists, otherwise (the consumer has
+                        // fewer replicas) one chosen round-robin, so that no producer is left
+                        // without a consumer and its data silently dropped
+                        let same = to.iter().find(|to_coord| {
+                            to_coord.host_id == from_coord.host_id
+                                && to_coord.replica_id == from_coord.replica_id
+                        });
+                        if let Some(to_coord) =
+                            same.or_else(|| to.get(from_index % to.len().max(1)))
+                        {
+                            self.network.connect(from_coord, **to_coord, typ, fragile);
+                        }
+                    } else {
+                        for &to_coord in to {
                             self.network.connect(from_coord, *to_coord, typ, fragile);
                         }
                     }
